@@ -131,30 +131,45 @@ def r2_port_table(ctx):
     F, R = ctx.F, ctx.R
     rec = F.one(r"^jsonrpsee_server::middleware::http::host_filter::WhitelistedHosts::recognize$")
     R.fn(rec)
-    cl = [c for c in F.nested(rec, include_self=False) if c.ckind == "closure"]
-    if len(cl) != 1:
-        raise AnchorLost("the port-matching closure of WhitelistedHosts::recognize (found %d)" % len(cl))
-    cb = cl[0]
-    R.fn(cb)
+    for x in F.nested(rec, include_self=False):
+        R.fn(x)
     vs = {n: i for i, n, f in unit_variants(F, PORT)}
-    it = Interp(F, call_handlers=[RX_EQ])
+    from ..interp import ListVal
 
     def port(kind, n=None):
         return Enum(PORT, vs[kind], kind, [n] if kind == "Fixed" else [])
 
+    def run(entry_ports, req_port, known=True):
+        """recognize(&self, &Authority{host, port}) with the router answering `entry_ports` for the host"""
+        lookup = Enum("std::result::Result", 0, "Ok", [Struct("Match", [ListVal(entry_ports)])]) if known else Enum("std::result::Result", 1, "Err", [Sym("no-route")])
+        handlers = [
+            RX_EQ,
+            (re.compile(r"route_recognizer::Router::<.*>::recognize$"), lambda it, n, a: lookup),
+            (re.compile(r"route_recognizer::Match::<.*>::(handler|handler_mut)$"), lambda it, n, a: Ref([deref_(a[0]).fields[0]])),
+            (re.compile(r"Deref>?::deref$|AsRef<.*>>?::as_ref$|String::as_str$"), lambda it, n, a: deref_(a[0])),
+        ]
+        auth = Struct("Authority", [Sym("host"), req_port], ["host", "port"])
+        return Interp(F, call_handlers=handlers).run(rec, [Ref([Struct("WhitelistedHosts", [Sym("router")])]), Ref([auth])])
+
+    from ..interp import deref as deref_
     cases = [("Any", None), ("Default", None), ("Fixed", 8080), ("Fixed", 9999)]
     n = 0
-    for ek, en in cases:
-        for rk, rn in cases:
-            n += 1
-            auth = Struct("Authority", [Sym("host"), port(rk, rn)], ["host", "port"])
-            env = Struct("env", [Ref([Ref([auth])])])
-            try:
-                got = it.run(cb, [Ref([env]), Ref([port(ek, en)])])
-            except Unsupported as e:
-                raise AnchorLost("port-matching closure is not a plain decision table any more (%s)" % e)
-            want = (ek == "Any") or (ek == "Default" and rk == "Default") or (ek == "Fixed" and rk == "Fixed" and en == rn)
-            R.check(got == want, "C14.R2", "port:%s%s-vs-%s%s" % (ek, en or "", rk, rn or ""), "entry port %s%s vs request port %s%s -> %s" % (ek, en or "", rk, rn or "", want), "allow-list entry with port %s%s %s a request with port %s%s (expected %s)" % (ek, en or "", "admits" if got else "refuses", rk, rn or "", "admit" if want else "refuse"), "%s:%d" % (cb.file, cb.lo))
+    try:
+        for ek, en in cases:
+            for rk, rn in cases:
+                n += 1
+                got = run([port(ek, en)], port(rk, rn))
+                want = (ek == "Any") or (ek == "Default" and rk == "Default") or (ek == "Fixed" and rk == "Fixed" and en == rn)
+                R.check(got == want, "C14.R2", "port:%s%s-vs-%s%s" % (ek, en or "", rk, rn or ""), "entry port %s%s vs request port %s%s -> %s" % (ek, en or "", rk, rn or "", want), "allow-list entry with port %s%s %s a request with port %s%s (expected %s)" % (ek, en or "", "admits" if got else "refuses", rk, rn or "", "admit" if want else "refuse"), "%s:%d" % (rec.file, rec.lo))
+        # any port of the entry: a later port of a multi-port entry matches; no port of it matches -> refuse; unknown host
+        got = run([port("Fixed", 1), port("Default"), port("Fixed", 8080)], port("Fixed", 8080))
+        R.check(got is True, "C14.R2", "any-port-of-entry", "a request matches if any port of the matching entry matches", "a request on the third port of a three-port entry is refused: only the first port(s) of an entry are compared", "%s:%d" % (rec.file, rec.lo))
+        got = run([port("Fixed", 1), port("Fixed", 2)], port("Fixed", 8080))
+        R.check(got is False, "C14.R2", "no-port-of-entry", "a request on none of the entry's ports is refused", "a request whose port equals none of the entry's ports is admitted", "%s:%d" % (rec.file, rec.lo))
+        got = run([], port("Default"), known=False)
+        R.check(got is False, "C14.R2", "unknown-host->deny", "a host that matches no entry is denied", "an unrecognised host is not denied", "%s:%d" % (rec.file, rec.lo))
+    except Unsupported as e:
+        raise AnchorLost("WhitelistedHosts::recognize is not a plain decision over the router's answer any more (%s)" % e)
     R.floor("C14.R2", n, 16, "rows of the port table")
     # unknown host -> false; the host looked up is the request's host; any() over the entry's ports
     tr = ctx.tracer(follow_callers=False, follow_fields=False)
@@ -163,19 +178,6 @@ def r2_port_table(ctx):
     for c in rr:
         lv = tr.origins(rec, c.args[1])
         R.check(any(l.kind == "field" and l.detail["fields"][-1][1] == "host" for l in lv), "C14.R2", "host-lookup-key", "the key is the request authority's host", "the router is asked about %s" % [flow.leaf_str(l) for l in lv], where(c))
-        err_t = None
-        for sb, arms, other in flow.switch_on(rec, c.dest["l"]):
-            err_t = arms.get("1", other if "0" in arms else None)
-        okf = False
-        if err_t is not None:
-            for bi in {x for x in (rec.reach_from(err_t) | {err_t}) if rec.dominates(err_t, x)}:
-                for st in rec.blocks[bi]["st"]:
-                    if st["s"] == "assign" and st["pl"]["l"] == 0 and st["rv"]["k"] == "use":
-                        k = op_const(st["rv"]["op"])
-                        if k and k.get("bool") is False:
-                            okf = True
-        R.check(okf, "C14.R2", "unknown-host->deny", "a host that matches no entry is denied", "an unrecognised host is not denied", where(c))
-    R.check(bool(rec.calls_to(r"Iterator::any$")), "C14.R2", "any-port-of-entry", "a request matches if any port of the matching entry matches", "recognize no longer uses any() over the entry's ports", "%s:%d" % (rec.file, rec.lo))
 
 
 def r3_authority_table(ctx):
